@@ -74,6 +74,9 @@ type c07World struct {
 	timeouts int // opens that ran into their deadline (a sick world is skipped)
 	closeFails int
 	closeRequestless bool // the next requestless handler closes its end instead of holding it
+	parking  bool // a direct connection exists next to the limited one (only inside the park op)
+	parkSick int  // park ops in which an open still within its deadline was not woken
+	parkAddr bool // the dialer listens on TCP (so that the listener can dial it directly)
 	hasScope bool
 	limited  bool
 	d, l     host.Host
@@ -290,6 +293,29 @@ func (w *c07World) close() {
 	for _, f := range w.closers {
 		f()
 	}
+}
+
+// streamCounts: streams on the connection(s) between the two hosts, per side
+func (w *c07World) streamCounts() (nd, nl int, ok bool) {
+	cd, cl := w.d.Network().ConnsToPeer(w.l.ID()), w.l.Network().ConnsToPeer(w.d.ID())
+	if !w.parking {
+		d, l := w.connD(), w.connL()
+		if d == nil || l == nil {
+			return 0, 0, false
+		}
+		return len(d.GetStreams()), len(l.GetStreams()), true
+	}
+	if len(cd) < 1 || len(cd) > 2 || len(cl) < 1 || len(cl) > 2 {
+		w.fail(fmt.Sprintf("parking: dialer has %d conns, listener %d", len(cd), len(cl)))
+		return 0, 0, false
+	}
+	for _, c := range cd {
+		nd += len(c.GetStreams())
+	}
+	for _, c := range cl {
+		nl += len(c.GetStreams())
+	}
+	return nd, nl, true
 }
 
 func (w *c07World) connD() network.Conn {
